@@ -73,6 +73,9 @@ type Env struct {
 	CtxNames map[string]string // hex context id -> "c<n>"
 	CtxIDs   map[string][]byte // "c<n>" -> context id
 	NCtx     int64
+	// LastReq remembers the id of the last request seen per context and provider,
+	// so that a driver can answer it after the service module cleaned it up.
+	LastReq map[string]string
 	// RenderOutput turns a stored response output into the module's abstract
 	// response record (kind, x).
 	RenderOutput func(output string) (kind string, x int64)
@@ -80,7 +83,7 @@ type Env struct {
 
 func NewEnv(c *chain.Chain, service string, provs []string) *Env {
 	e := &Env{C: c, Service: service, Names: map[string]string{}, Provs: provs,
-		CtxNames: map[string]string{}, CtxIDs: map[string][]byte{}}
+		CtxNames: map[string]string{}, CtxIDs: map[string][]byte{}, LastReq: map[string]string{}}
 	for n, a := range c.Accts {
 		e.Names[a.Addr.String()] = n
 	}
@@ -201,6 +204,9 @@ func (e *Env) RequestID(ctx sdk.Context, cname, provider string) string {
 		// somebody else's request: the code must reject the wrong provider
 		return hex.EncodeToString(rs[0].ID)
 	}
+	if id, ok := e.LastReq[cname+"/"+provider]; ok {
+		return id // a request that existed once (expired and cleaned up by now)
+	}
 	return fmt.Sprintf("%0*d", servicetypes.RequestIDLen, 0)
 }
 
@@ -258,6 +264,7 @@ func (e *Env) Project(ctx sdk.Context) (ctxs chain.M, bind chain.M, earned chain
 					kind = "out"
 				}
 			}
+			e.LastReq[name+"/"+e.NameOf(cr.Provider)] = hex.EncodeToString(rid)
 			reqs[e.NameOf(cr.Provider)] = chain.M{
 				"fee": small(cr.ServiceFee.AmountOf(Denom)), "act": k.IsRequestActive(ctx, rid),
 				"kind": kind, "x": x, "exp": cr.ExpirationHeight,
